@@ -459,3 +459,93 @@ def ptr_into_array(prog, scope, an=None):
                           'offset + index inside the array'))
     return RuleResult('R-IDX(ptr)', obs, 0, {'functions': nfn})
 
+
+
+def field_inv(prog, table=None):
+    """FIELD-INV (C15): an `idx_table.json` entry that excuses a subscript by a range invariant of a member field
+    (`"field_invariant": {"field": "sp", "max": 7}`) is checked mechanically: every store to that field in the class's files
+    keeps it in 0..max.  Accepted stores: a constant <= max; `(..) & c` / `F &= c` with c <= max; a store that is followed in
+    the same basic block by `F &= c` or by the clamp `if (F > max) F = max`; `F++` dominated by a test `F == max` that leaves."""
+    from nk.cfg import dominators
+    from nk.facts import walk
+    table = table or load_table()
+    obs = []
+    seen = set()
+    for e in table.get('unproven', []):
+        inv = e.get('field_invariant')
+        if not inv:
+            continue
+        stem = e['file'].rsplit('.', 1)[0]
+        key = (stem, inv['field'])
+        if key in seen:
+            continue
+        seen.add(key)
+        F, M = inv['field'], inv['max']
+        k = 0
+        for fn in sorted(prog.functions(lambda f: f.file.rsplit('.', 1)[0] == stem and f.blocks), key=lambda f: (f.file, f.line)):
+            dom = None
+            for b, bb in sorted(fn.blocks.items()):
+                es = bb['e']
+                for i, eid in enumerate(es):
+                    n = fn.nodes.get(eid)
+                    if n is None:
+                        continue
+                    tgt = None
+                    if n['k'] in ('BinaryOperator', 'CompoundAssignOperator') and n.get('op', '').endswith('=') and \
+                            n['op'] not in ('==', '!=', '<=', '>='):
+                        tgt = strip(kids(n)[0])
+                    elif n['k'] == 'UnaryOperator' and n.get('op') in ('++', '--'):
+                        tgt = strip(kids(n)[0])
+                    if tgt is None or tgt['k'] != 'MemberExpr' or tgt.get('n') != F or \
+                            not any(x['k'] == 'CXXThisExpr' for x in walk(tgt)):
+                        continue
+                    k += 1
+                    ok = None
+                    if n['k'] == 'BinaryOperator' and n['op'] == '=':
+                        r = strip(kids(n)[1], casts=True)
+                        v = const(r)
+                        if v is not None and 0 <= v <= M:
+                            ok = 'constant'
+                        elif r['k'] == 'BinaryOperator' and r.get('op') == '&' and \
+                                any(const(x) is not None and 0 <= const(x) <= M for x in kids(r)):
+                            ok = 'masked'
+                    elif n['k'] == 'CompoundAssignOperator' and n['op'] == '&=' and const(kids(n)[1]) is not None and \
+                            0 <= const(kids(n)[1]) <= M:
+                        ok = 'masking store'
+                    if ok is None:
+                        # followed in the block by a mask or a clamp of the field
+                        for eid2 in es[i + 1:]:
+                            m = fn.nodes.get(eid2)
+                            if m is None:
+                                continue
+                            if m['k'] == 'CompoundAssignOperator' and m.get('op') == '&=' and strip(kids(m)[0]).get('n') == F and \
+                                    const(kids(m)[1]) is not None and const(kids(m)[1]) <= M:
+                                ok = 'masked by the next statement'
+                                break
+                        cn = fn.nodes.get(bb.get('cond')) if 'cond' in bb else None
+                        if ok is None and cn is not None:
+                            c = strip(cn, casts=True)
+                            if c['k'] == 'BinaryOperator' and c.get('op') == '>' and strip(kids(c)[0], casts=True).get('n') == F and \
+                                    const(kids(c)[1]) == M:
+                                ok = 'clamped by the following `if (%s > %d)`' % (F, M)
+                    if ok is None and n['k'] == 'UnaryOperator' and n['op'] == '++':
+                        if dom is None:
+                            dom = dominators(fn)
+                        for b2 in dom[b]:
+                            c2 = fn.nodes.get(fn.blocks[b2].get('cond')) if 'cond' in fn.blocks[b2] else None
+                            if c2 is None:
+                                continue
+                            c = strip(c2, casts=True)
+                            if c['k'] == 'BinaryOperator' and c.get('op') == '==' and strip(kids(c)[0], casts=True).get('n') == F and \
+                                    const(kids(c)[1]) == M:
+                                ok = 'guarded by `%s == %d` that leaves' % (F, M)
+                    construct = 'store:%s#%d' % (F, k)
+                    if ok:
+                        obs.append(Ob('FIELD-INV', fn.file, n['l'], fn.q, construct, DISCHARGED, '', ok, False))
+                    else:
+                        obs.append(Ob('FIELD-INV', fn.file, n['l'], fn.q, construct, VIOLATED,
+                                      '`%s` can leave %s outside 0..%d: the subscripts of %s[] that idx_table.json excuses by this '
+                                      'invariant are then out of bounds' % (show(n)[:50], F, M, e['array'])))
+    if not obs:
+        raise AnalysisBroken('FIELD-INV: no field invariant in idx_table.json')
+    return RuleResult('FIELD-INV', obs, 3, {})
